@@ -851,6 +851,15 @@ class Folder:
         if fn in ("math.remainder", "math.fmod") and len(args) == 2 and all(isinstance(a, (int, float)) or (isinstance(a, sp.Basic) and a.is_number and a.is_real) for a in args):
             import math as _m
             return getattr(_m, fn.split(".")[1])(*[float(a) for a in args])
+        if fn == "next" and not kwargs and args and isinstance(args[0], (list, tuple)):
+            if args[0]:
+                return args[0][0]                 # comprehensions are folded eagerly: next(<generator>) is the first element
+            if len(args) == 2:
+                return args[1]
+            raise Raised("StopIteration", e)
+        if fn in ("isclose",) and len(args) == 2 and all(isinstance(a, (int, float)) and not isinstance(a, bool) for a in args) and all(isinstance(v, (int, float)) for v in kwargs.values()):
+            import math as _m
+            return _m.isclose(*args, **kwargs)
         if fn in ("next", "iter") and not kwargs:
             try:
                 return {"next": next, "iter": iter}[fn](*args)
